@@ -1,4 +1,7 @@
 package main
 
 // wire-level clauses of C07 -- filled in by c07wire.go when the resource has annotations
-func c07(stats map[string]int) { c07wire(stats) }
+func c07(stats map[string]int) {
+	c07wire(stats)
+	c07wireShapes(stats)
+}
